@@ -62,5 +62,6 @@ deriving Repr, Inhabited
 /-- C++ text outside the translated subset: constants nothing is known about. -/
 opaque unsupportedBool (text : String) : Bool
 opaque unsupportedVal {β : Type} [Inhabited β] (text : String) : β
+opaque unsupportedScalar {α : Type} (S : Sc α) (text : String) : α := S.ofNat 0
 
 end Primitiv.Rng
